@@ -618,6 +618,23 @@ impl EliasFanoCursor<'_> {
     }
 }
 
+/// Read-only views of internal state for the external verification harness.
+#[cfg(feature = "verif-hooks")]
+impl EliasFano {
+    /// `(low_width, high_bits, select_samples)`.
+    pub fn verif_parts(&self) -> (usize, &[u64], &[u32]) {
+        (self.low_width, &self.high_bits, &self.select_samples)
+    }
+}
+
+#[cfg(feature = "verif-hooks")]
+impl EliasFanoCursor<'_> {
+    /// `(idx, high_pos, word_idx, remaining_bits)`.
+    pub fn verif_state(&self) -> (usize, usize, usize, u64) {
+        (self.idx, self.high_pos, self.word_idx, self.remaining_bits)
+    }
+}
+
 /// Iterator adapter for EliasFano.
 impl<'a> IntoIterator for &'a EliasFano {
     type Item = u32;
